@@ -230,12 +230,18 @@ class LoadSurferCase(Contract):
             if k % 4 == 3:  # a projected (UTM-like) region: large offsets, sub-metre spacing
                 region = (500000.25, 500000.25 + 0.25 * (ne - 1), 7000000.25, 7000000.25 + 0.25 * (nn - 1))
             fmt = rng.choice(["%.10g", "%14.7e", "%.6f", "%   .9g"])
-            kinds = ["ok", "wrapped", "bad_count", "swapped_count", "bad_range", "shifted_range", "ragged", "bad_token", "extra_rows", "ok", "ok"]
+            kinds = ["ok", "wrapped", "bad_count", "swapped_count", "bad_range", "shifted_range", "ragged", "bad_token", "extra_rows", "small_limit_off", "ok", "ok"]
             kind = kinds[k] if k < len(kinds) else rng.choice(kinds)  # every kind at least once
+            if kind == "small_limit_off":
+                # values over many orders of magnitude; only the SMALL-magnitude limit of the header will be wrong
+                vals = np.abs(vals) / np.abs(vals).max() * 1e6 * rng.choice([1.0, -1.0])
+                vals.flat[0] = 3.0 * np.sign(vals.flat[1])
             if kind == "extra_rows":
                 # more rows in the body than the header announces, the surplus repeating rows that are already there
                 # (so the value range of the announced rows is the range of the whole body)
                 vals[-1] = vals[0]
+            if (vals < SENTINEL).sum() == 0:  # (a row of blanks copied over the only value)
+                vals[0, 0] = vals[-1, 0] = 1.0
             good = vals[vals < SENTINEL]
             zr = (float(good.min()), float(good.max()))
             hdr_shape, wrap_cols = (nn, ne), None
@@ -249,6 +255,8 @@ class LoadSurferCase(Contract):
                 hdr_shape = (ne, nn)
             elif kind == "bad_range":
                 zr = (zr[1], zr[0]) if zr[0] != zr[1] else (zr[0] - 1, zr[1])
+            elif kind == "small_limit_off":
+                zr = (zr[0] + 7.0, zr[1]) if abs(zr[0]) < abs(zr[1]) else (zr[0], zr[1] - 7.0)
             elif kind == "shifted_range":
                 span = (zr[1] - zr[0]) or 1.0
                 zr = (zr[0] + 0.1 * span, zr[1] + 0.1 * span)
@@ -291,6 +299,13 @@ class LoadSurferCase(Contract):
             rel = 1e-6 if str(a.dtype) == "float32" else 1e-12
             ok = bool(np.array_equal(np.isnan(vals), blank) and np.allclose(vals[~blank], written[~blank], rtol=rel, atol=0))
         out["values_are_those_written_row_by_row_blank_cells_nan"] = ok
+        # "a file whose body disagrees with its header in ... data range raises an error instead of returning data": a
+        # returned grid comes from a file whose header limits are the body's, up to the digits a header is written with
+        goodb = body[body < SENTINEL]
+        if goodb.size:
+            out["returned_only_if_the_header_data_range_is_the_bodys"] = all(
+                abs(h - b) <= 1.1e-5 * max(abs(h), abs(b)) + 1e-6 for h, b in zip(case.zrange, (float(goodb.min()), float(goodb.max())))
+            )
         w, e, s, n = case.region
         # the coordinates are the evenly spaced float64 nodes between the header bounds - whatever dtype the VALUES are
         # read as (compared exactly: single precision cannot even separate neighbouring nodes of a UTM-sized region)
